@@ -25,6 +25,7 @@ class FaultPlan:
         self.slow = [f for f in self.faults if f["kind"] == "objective_slow"]
         self.stalled = {f["widx"]: f for f in self.faults if f["kind"] == "stalled_worker"}
         self.crash_at = [f["at_task"] for f in self.faults if f["kind"] == "worker_crash"]
+        self.scribble = any(f["kind"] == "objective_scribbles" for f in self.faults)
         self.ndraw = 0
         self.ntask = 0
         self.last_int = None
